@@ -453,6 +453,8 @@ class ParseResults:
 
     def __iadd__(self, other: ParseResults) -> ParseResults:
         if not other:
+            if isinstance(other, ParseResults):
+                self._all_names |= other._all_names
             return self
 
         if other._tokdict:
